@@ -221,8 +221,32 @@ func runCase(c Case) (out Outcome) {
 	for i := range spare {
 		spare[i] = 0xEE // garbage behind the slice: Split may use the spare capacity
 	}
-	if err := addBlob(ctx, wStore, id, arg); err != nil {
-		out.AddErr = err.Error()
+	if c.Companions == 0 {
+		if err := addBlob(ctx, wStore, id, arg); err != nil {
+			out.AddErr = err.Error()
+		}
+	} else {
+		// one Add call with several blobs of the table
+		var blobs []sop.KeyValuePair[sop.UUID, []byte]
+		for j := 0; j < c.Companions; j++ {
+			cid := sop.UUID(idFromSeed(c.Seed ^ (0x9e3779b97f4a7c15 * uint64(j+1))))
+			cb := content(2, c.Seed+uint64(j)+1, 1+(c.Size+7*j)%977)
+			defer func() {
+				for i := 0; i < n; i++ {
+					os.Remove(shardPath(drives[i], cid, i))
+				}
+			}()
+			if j == c.Before {
+				blobs = append(blobs, sop.KeyValuePair[sop.UUID, []byte]{Key: id, Value: arg})
+			}
+			blobs = append(blobs, sop.KeyValuePair[sop.UUID, []byte]{Key: cid, Value: cb})
+		}
+		if c.Before >= c.Companions {
+			blobs = append(blobs, sop.KeyValuePair[sop.UUID, []byte]{Key: id, Value: arg})
+		}
+		if err := wStore.Add(ctx, []sop.BlobsPayload[sop.KeyValuePair[sop.UUID, []byte]]{{BlobTable: table, Blobs: blobs}}); err != nil {
+			out.AddErr = err.Error()
+		}
 	}
 	out.AddDone = true
 	if out.AddErr != "" {
